@@ -739,6 +739,7 @@ TVALS = {
     ("isot", 1): ["2019-01-01T06:00:00", "2019-03-02T18:00:00"],
     ("iso", 1): ["2019-01-01 06:00:00", "2019-03-02 18:00:00"],
     ("isot", 3): ["2017-09-04T06:00:00", "2017-09-05T18:00:00"],     # same days as value 0, other day fractions
+    ("isot", 4): ["2017-09-04T00:00:00"],                             # shape (1,)
     ("isot", 2): "2017-09-04T00:00:00",
     ("iso", 2): "2017-09-04 00:00:00",
 }
@@ -804,6 +805,17 @@ def gen_time_histories(ctx):
             hs.append(news + list(combo))
     for _ in range(0 if light else 40 if ctx.quick() else 1500):
         hs.append(news + [ctx.rng.choice(alpha) for _ in range(ctx.rng.randrange(5, 30))])
+    # times of DIFFERENT scales with bitwise equal jd1/jd2, equal shape ((n,), scalar, (1,)) and equal fmt, converted to the
+    # same third scale (or to each other's scale) in one interpreter, in both orders
+    news2 = [("TNew", 0, "utc", "isot", 0), ("TNew", 1, "tai", "isot", 0), ("TNew", 2, "utc", "isot", 2), ("TNew", 3, "tai", "isot", 2),
+             ("TNew", 4, "utc", "isot", 4), ("TNew", 5, "gps", "isot", 4)]
+    alpha2 = [("TScale", 0, "tt"), ("TScale", 1, "tt"), ("TScale", 2, "gps"), ("TScale", 3, "gps"), ("TScale", 4, "tt"),
+              ("TScale", 5, "tt"), ("TScale", 0, "tai"), ("TScale", 1, "utc"), ("TScale", 5, "utc")]
+    for L in range(1, full + 1):
+        for combo in itertools.product(alpha2, repeat=L):
+            hs.append(news2 + list(combo))
+    for _ in range(0 if light else 20 if ctx.quick() else 500):
+        hs.append(news2 + [ctx.rng.choice(alpha2) for _ in range(ctx.rng.randrange(4, 20))])
     return hs
 
 
